@@ -27,14 +27,15 @@ KINDS = ["f", "f", "i", "i", "i", "b", "s", "s", "u", "d", "t", "tm", "ts", "td"
 def _plan(draw, max_len):
     kind = draw(st.sampled_from(KINDS))
     n = draw(st.one_of(st.sampled_from([0, 1, 2, 3]), st.integers(0, max_len)))
-    if max_len > 10 and kind == "i" and draw(st.integers(0, 9)) == 0:
+    if kind == "i" and draw(st.integers(0, 9 if max_len > 10 else 24)) == 0:
         # long vector of all-distinct integers (first occurrences at every index, incl. 128 and beyond)
-        n = draw(st.sampled_from([129, 130, 257]))
+        n = draw(st.sampled_from([129, 130, 257, 1031]))
         a, b = draw(st.sampled_from([1, 7, 37, 101])), draw(st.integers(-5, 5))
         return {"kind": "i", "vals": [((i * a) % n) + b for i in range(n)]}
-    if max_len > 10 and kind != "oi" and draw(st.integers(0, 19)) == 0:
-        # long vectors (beyond NumPy's small-array sort paths), laid out from a few base values
-        n = draw(st.sampled_from(gen.BIG_SIZES))
+    if kind != "oi" and draw(st.integers(0, 19 if max_len > 10 else 29)) == 0:
+        # long vectors (beyond NumPy's small-array sort paths and any plausible size threshold), laid out from a few
+        # base values; also in the quick tier, where they are about one case in thirty
+        n = draw(st.sampled_from(gen.BIG_SIZES + gen.HUGE_SIZES))
         return {"kind": kind, "vals": draw(gen.big_values(kind, n, na="asis"))}
     if kind == "oi":
         vals = [draw(st.sampled_from([None, 0, 1, 2, 3, 9])) for _ in range(n)]
@@ -104,6 +105,8 @@ def _check_vec(v, kind, vals, ctx):
     n = len(cs)
     nn = [c for c in cs if c is not None]
     ctx.cls("kind_" + kind, "len0" if n == 0 else "allna" if not nn else "mixed" if len(nn) < n else "full")
+    if n >= 65:
+        ctx.cls("len_65_to_512" if n < 513 else "len_513_and_more")
 
     # ---- sort ----
     for d in (1, -1):
@@ -120,28 +123,30 @@ def _check_vec(v, kind, vals, ctx):
             raise Violation("sort changed dtype", dir=d, got=build.dtype_tag(out), want=build.dtype_tag(v))
 
     # ---- rank ----
-    def before_(i, j):  # element j ordered strictly before element i
-        if cs[j] is None:
-            return False
-        if cs[i] is None:
-            return True
-        return model.cmp_cells(cs[j], cs[i]) < 0
-
-    def equal_(i, j):
-        if cs[i] is None or cs[j] is None:
-            return cs[i] is None and cs[j] is None
-        return model.cmp_cells(cs[i], cs[j]) == 0
+    # counting definition, evaluated through one stable comparator sort (O(n log n): long vectors stay cheap):
+    # strictly-before count = position of the element's tie run, before-or-equal = end of that run
+    import functools
+    idx_nn = sorted((i for i in range(n) if cs[i] is not None), key=functools.cmp_to_key(lambda i, j: model.cmp_cells(cs[i], cs[j])))
+    exp_min, exp_max, exp_ord = [0] * n, [0] * n, [0] * n
+    pos = 0
+    while pos < len(idx_nn):
+        end = pos
+        while end + 1 < len(idx_nn) and model.cmp_cells(cs[idx_nn[end + 1]], cs[idx_nn[pos]]) == 0:
+            end += 1
+        for q in range(pos, end + 1):
+            i = idx_nn[q]
+            exp_min[i], exp_max[i], exp_ord[i] = pos + 1, end + 1, q + 1       # stable sort: ties by position
+        pos = end + 1
+    na_idx = [i for i in range(n) if cs[i] is None]
+    for q, i in enumerate(na_idx):                   # missing values: after all others, equal among themselves
+        exp_min[i], exp_max[i], exp_ord[i] = len(idx_nn) + 1, n, len(idx_nn) + q + 1
+    expected = {"min": exp_min, "max": exp_max, "ordinal": exp_ord}
 
     ranks = {}
     for m in ("min", "max", "ordinal"):
         r = ctx.call(f"rank({m})", lambda: v.rank(method=m))
         got = [int(x) for x in np.asarray(r)]
-        if m == "min":
-            exp = [1 + sum(before_(i, j) for j in range(n)) for i in range(n)]
-        elif m == "max":
-            exp = [sum(before_(i, j) or equal_(i, j) for j in range(n)) for i in range(n)]
-        else:
-            exp = [1 + sum(before_(i, j) or (equal_(i, j) and j < i) for j in range(n)) for i in range(n)]
+        exp = expected[m]
         if got != exp:
             raise Violation(f"rank({m}) differs from the counting definition", got=got, want=exp, input=cs)
         if np.asarray(r).dtype.kind not in "iu":
